@@ -21,7 +21,7 @@ ASSUMPTIONS = ['what must be where is derived from the Layout tables the code re
 
 def gen(rng, tier, idx):
     ndim = rng.choice([2, 3, 3, 4, 4, 4])
-    nprocs = cm.gen_nprocs(rng, ndim)
+    nprocs = cm.gen_nprocs(rng, ndim, maxP=16, wide=True) if tier == 'thorough' else cm.gen_nprocs(rng, ndim)
     nlay = rng.choice([1, 2, 2, 3, 3, 3, 4, 4, 5, 6])
     orders = cm.gen_layout_chain(rng, ndim, nlay, len(nprocs))
     shape = cm.gen_shape(rng, ndim, nprocs, orders)
